@@ -1,6 +1,9 @@
 //! Checks of the agdb search queries (C14-C17).
 //! `search_checks <C14|C15|C16|C17> [--tier quick|thorough] [--replay file]`
 mod c14;
+mod c15;
+mod c16;
+mod c17;
 mod common;
 mod refeval;
 
@@ -9,6 +12,9 @@ fn main() {
     engine::install_quiet_panic_hook();
     let code = match args.property.as_str() {
         "C14" => c14::run(&args),
+        "C15" => c15::run(&args),
+        "C16" => c16::run(&args),
+        "C17" => c17::run(&args),
         other => engine::machinery_failure(&format!("search_checks: unknown property {other}")),
     };
     std::process::exit(code);
